@@ -622,9 +622,12 @@ void onFatal(sim::EndKind kind, const std::vector<sim::ThreadDump>& threads) {
   out.decisions = sim::decisions();
   if (!r->verdict) {
     out.status = kind == sim::EndKind::Hang ? "hang" : "livelock";
-    out.clause = r->queueDestroyed ? "C16.10" : "C16.1";
+    bool jobsMissing = false;
+    for (auto& e : r->jobs)
+      if (e.second.initial && !r->execCount.count(e.first)) jobsMissing = true;
+    out.clause = jobsMissing ? "C16.1" : r->queueDestroyed ? "C16.10" : "C16.1";
     out.detail = std::string(kind == sim::EndKind::Hang ? "HANG" : "LIVELOCK") +
-                 (r->queueDestroyed ? ": a thread outlives the queue" : ": jobs never finish / queue cannot be destroyed") + "\n" + dump +
+                 (jobsMissing ? ": submitted jobs were never executed" : r->queueDestroyed ? ": a thread outlives the queue" : ": jobs never finish / queue cannot be destroyed") + "\n" + dump +
                  "--- last events ---\n" + r->tail();
   }
   runner::fatal_result(out);
